@@ -302,6 +302,11 @@ func (e StdEng) Dot(x, y Tensor, opts ...FuncOpt) (retVal Tensor, err error) {
 	}
 
 	if reuse != nil {
+		// what the other products demand of a reuse tensor: exactly the result's size, no non-contiguous view
+		if _, err = handleReuse(reuse, rd.Shape(), true); err != nil {
+			ReturnTensor(rd)
+			return nil, errors.Wrapf(err, opFail, "Dot")
+		}
 		copyDense(reuse, rd)
 		ap := rd.Info().Clone()
 		reuse.setAP(&ap)
